@@ -57,6 +57,184 @@ theorem sum_map_length_flatten (xs : List C01Bytes) : (xs.map List.length).sum =
 theorem writerN_eq (b : Nat) (hb : 0 < b) (p : C01Bytes) : writerN b p = p.length := by
   simp only [writerN, sum_map_length_flatten, chunks_flatten b hb p]
 
+/-! ### `Writer.Write` with the limiter's admission check and a failing sink -/
+
+/-- the chunk size chosen by the loop is admissible: `WaitN` cannot refuse it -/
+theorem waitOk_chunk (inf : Bool) (b l : Nat) : waitOk inf b (if b < l then b else l) = true := by
+  simp only [waitOk, Bool.or_eq_true, decide_eq_true_eq]
+  right
+  split <;> omega
+
+/-- everything one `Write` does, for every sink capacity -/
+structure WSpec (b room : Nat) (p : C01Bytes) (o : WOut) : Prop where
+  noWait : o.err ≠ .wait
+  n_eq : o.n = min room p.length
+  ok_iff : o.err = .none ↔ p.length ≤ room
+  pre : o.offered.flatten <+: p
+  n_le : o.n ≤ o.offered.flatten.length
+  reqs : o.reqs = o.offered.map List.length
+  bounds : ∀ c ∈ o.offered, 0 < c.length ∧ c.length ≤ b
+  room_eq : o.room = room - o.n
+
+theorem writeAux_spec (inf : Bool) (b : Nat) (hb : 0 < b) :
+    ∀ (fuel room : Nat) (p : C01Bytes), p.length ≤ fuel → WSpec b room p (writeAux inf b fuel room p) := by
+  intro fuel
+  induction fuel with
+  | zero =>
+    intro room p hp
+    have : p = [] := List.eq_nil_of_length_eq_zero (by omega)
+    subst this
+    exact ⟨by simp [writeAux], by simp [writeAux], by simp [writeAux], by simp [writeAux], by simp [writeAux],
+      by simp [writeAux], by simp [writeAux], by simp [writeAux]⟩
+  | succ f ih =>
+    intro room p hp
+    by_cases h0 : p.length = 0
+    · have : p = [] := List.eq_nil_of_length_eq_zero h0
+      subst this
+      exact ⟨by simp [writeAux], by simp [writeAux], by simp [writeAux], by simp [writeAux], by simp [writeAux],
+        by simp [writeAux], by simp [writeAux], by simp [writeAux]⟩
+    · have hw := waitOk_chunk inf b p.length
+      have he : 0 < (if b < p.length then b else p.length) ∧ (if b < p.length then b else p.length) ≤ b ∧
+          (if b < p.length then b else p.length) ≤ p.length := by split <;> omega
+      generalize hE : (if b < p.length then b else p.length) = e at hw he
+      obtain ⟨he0, heb, hel⟩ := he
+      have htl : (p.take e).length = e := by simp only [List.length_take]; omega
+      by_cases hr : e ≤ room
+      · have hd : (p.drop e).length ≤ f := by simp only [List.length_drop]; omega
+        have s := ih (room - e) (p.drop e) hd
+        have hdl : (p.drop e).length = p.length - e := List.length_drop
+        have hval : writeAux inf b (f + 1) room p =
+            { n := e + (writeAux inf b f (room - e) (p.drop e)).n, err := (writeAux inf b f (room - e) (p.drop e)).err,
+              reqs := e :: (writeAux inf b f (room - e) (p.drop e)).reqs,
+              offered := p.take e :: (writeAux inf b f (room - e) (p.drop e)).offered,
+              room := (writeAux inf b f (room - e) (p.drop e)).room } := by
+          simp only [writeAux, h0, if_false, hE, hw, if_true, hr]
+        rw [hval]
+        generalize writeAux inf b f (room - e) (p.drop e) = o at s
+        refine ⟨s.noWait, ?_, ?_, ?_, ?_, ?_, ?_, ?_⟩
+        · have := s.n_eq; simp only [hdl] at this ⊢; omega
+        · have := s.ok_iff; simp only [hdl] at this; simp only []; rw [this]; omega
+        · simp only [List.flatten_cons]
+          have h := (List.prefix_append_right_inj (p.take e)).mpr s.pre
+          rwa [List.take_append_drop] at h
+        · have := s.n_le; simp only [List.flatten_cons, List.length_append, htl]; omega
+        · simp only [List.map_cons, htl, s.reqs]
+        · intro c hc
+          rcases List.mem_cons.mp hc with h | h
+          · subst h; rw [htl]; exact ⟨he0, heb⟩
+          · exact s.bounds c h
+        · have h1 := s.room_eq; have h2 := s.n_eq; simp only [hdl] at h2 ⊢; omega
+      · have hval : writeAux inf b (f + 1) room p =
+            { n := room, err := .sink, reqs := [e], offered := [p.take e], room := 0 } := by
+          simp only [writeAux, h0, if_false, hE, hw, if_true, hr]
+        rw [hval]
+        refine ⟨by simp, ?_, ?_, ?_, ?_, ?_, ?_, ?_⟩
+        · simp only []; omega
+        · simp only []; constructor
+          · intro h; cases h
+          · intro h; omega
+        · simp only [List.flatten_cons, List.flatten_nil, List.append_nil]; exact List.take_prefix _ _
+        · simp only [List.flatten_cons, List.flatten_nil, List.append_nil, htl]; omega
+        · simp only [List.map_cons, List.map_nil, htl]
+        · intro c hc
+          simp only [List.mem_singleton] at hc
+          subst hc; rw [htl]; exact ⟨he0, heb⟩
+        · simp only []; omega
+
+theorem write_spec (inf : Bool) (b : Nat) (hb : 0 < b) (room : Nat) (p : C01Bytes) :
+    WSpec b room p (write inf b room p) := writeAux_spec inf b hb p.length room p (Nat.le_refl _)
+
+/-- the bytes the sink accepted are exactly the first `n` bytes of `p` -/
+theorem write_accepted (inf : Bool) (b : Nat) (hb : 0 < b) (room : Nat) (p : C01Bytes) :
+    (write inf b room p).accepted = p.take (write inf b room p).n := by
+  have s := write_spec inf b hb room p
+  generalize write inf b room p = o at s
+  have h := List.prefix_iff_eq_take.mp s.pre
+  simp only [WOut.accepted]
+  rw [h, List.take_take]
+  congr 1
+  have := s.n_le
+  omega
+
+/-- with a sink that has room the run is the chunk run of `chunks` -/
+theorem writeAux_roomy (inf : Bool) (b : Nat) :
+    ∀ (fuel room : Nat) (p : C01Bytes), p.length ≤ room →
+      writeAux inf b fuel room p =
+        { n := ((chunksAux b fuel p).map List.length).sum, err := .none,
+          reqs := (chunksAux b fuel p).map List.length, offered := chunksAux b fuel p,
+          room := room - ((chunksAux b fuel p).map List.length).sum } := by
+  intro fuel
+  induction fuel with
+  | zero => intro room p _; simp [writeAux, chunksAux]
+  | succ f ih =>
+    intro room p hp
+    by_cases h0 : p.length = 0
+    · simp [writeAux, chunksAux, h0]
+    · have hw := waitOk_chunk inf b p.length
+      have he : (if b < p.length then b else p.length) ≤ p.length := by split <;> omega
+      generalize hE : (if b < p.length then b else p.length) = e at hw he
+      have hr : e ≤ room := by omega
+      have hd : (p.drop e).length ≤ room - e := by simp only [List.length_drop]; omega
+      have htl : (p.take e).length = e := by simp only [List.length_take]; omega
+      simp only [writeAux, chunksAux, h0, if_false, hE, hw, if_true, hr, ih (room - e) (p.drop e) hd,
+        List.map_cons, List.sum_cons, htl]
+      congr 1
+      omega
+
+/-! ### `Reader.Read` with the limiter's admission check, draining a stream -/
+
+/-- what every `Read` of a drain satisfies -/
+def ROutOk (b plen : Nat) (r : ROut) : Prop :=
+  r.err ≠ .wait ∧ r.got.length ≤ min plen b ∧
+    (r.err = .none → r.req = some r.got.length ∧ 0 < r.got.length) ∧ (r.err = .eof → r.got = [] ∧ r.req = none)
+
+theorem readAll_spec (inf : Bool) (b plen per : Nat) (hb : 0 < b) (hp : 0 < plen) (hper : 0 < per) :
+    ∀ (fuel : Nat) (src : C01Bytes), src.length < fuel →
+      ((readAll inf b plen per fuel src).map (·.got)).flatten = src ∧
+      (∀ r ∈ readAll inf b plen per fuel src, ROutOk b plen r) ∧
+      (∃ pre, readAll inf b plen per fuel src = pre ++ [{ got := [], req := none, err := .eof }] ∧
+        ∀ r ∈ pre, r.err = .none) := by
+  intro fuel
+  induction fuel with
+  | zero => intro src h; omega
+  | succ f ih =>
+    intro src hlen
+    by_cases h0 : src.length = 0
+    · have : src = [] := List.eq_nil_of_length_eq_zero h0
+      subst this
+      refine ⟨by simp [readAll, readOnce], ?_, ⟨[], by simp [readAll, readOnce], by simp⟩⟩
+      intro r hr
+      simp only [readAll, readOnce, List.length_nil, if_true] at hr
+      simp at hr
+      subst hr
+      simp [ROutOk]
+    · have hk : 0 < min (readerAsk b plen) per ∧ min (readerAsk b plen) per ≤ min plen b := by
+        simp only [readerAsk]; split <;> omega
+      generalize hK : min (readerAsk b plen) per = k at hk
+      have hgl : (src.take k).length = min k src.length := List.length_take
+      have hw : waitOk inf b (src.take k).length = true := by
+        simp only [waitOk, Bool.or_eq_true, decide_eq_true_eq]; right; omega
+      have hone : readOnce inf b plen per src =
+          ({ got := src.take k, req := some (src.take k).length, err := .none }, src.drop k) := by
+        simp only [readOnce, h0, if_false, hK, hw, if_true]
+      have hd : (src.drop k).length < f := by simp only [List.length_drop]; omega
+      obtain ⟨i1, i2, pre, i3, i4⟩ := ih (src.drop k) hd
+      have hval : readAll inf b plen per (f + 1) src =
+          { got := src.take k, req := some (src.take k).length, err := .none } :: readAll inf b plen per f (src.drop k) := by
+        simp only [readAll, hone, if_true]
+      rw [hval]
+      refine ⟨?_, ?_, ⟨_ :: pre, by rw [i3]; rfl, ?_⟩⟩
+      · simp only [List.map_cons, List.flatten_cons, i1, List.take_append_drop]
+      · intro r hr
+        rcases List.mem_cons.mp hr with h | h
+        · subst h
+          refine ⟨by simp, by simp only [hgl]; omega, fun _ => ⟨rfl, by simp only [hgl]; omega⟩, fun h => by cases h⟩
+        · exact i2 r h
+      · intro r hr
+        rcases List.mem_cons.mp hr with h | h
+        · subst h; rfl
+        · exact i4 r h
+
 /-! ### token bucket -/
 
 theorem lastT_ge (r B : Nat) : ∀ (evs : List (Nat × Nat)) (L t : Nat), valid r B L t evs = true → t ≤ lastT t evs := by
